@@ -145,7 +145,7 @@ func (s *scte35) parseTable(data []byte) error {
 		}
 		// parse descriptors
 		descriptorLoopLength := binary.BigEndian.Uint16(buf.Next(2))
-		if buf.Len() < int(descriptorLoopLength+psi.CrcLen) {
+		if buf.Len() < int(descriptorLoopLength)+int(psi.CrcLen) {
 			return gots.ErrInvalidSCTE35Length
 		}
 		// int arithmetic: with uint16 counters a loop length near 65535 wraps around and never ends
